@@ -174,7 +174,7 @@ def eval_unit_once(u, ns0, args, labels=None):
             ns[g] = eval(kind[1], ns)
     gd = u.opts.get("ghost_defs") or {}
     for k, t in gd.items():
-        ns[k] = eval(t, ns)
+        ns[k] = eval(t["opaque"] if isinstance(t, dict) else t, ns)
     if rt.get("env"):
         try:
             ns.update(rt["env"](args, None, ns))
